@@ -51,7 +51,7 @@ def setsets(xss):
 
 def load_universe(order):
     global _U
-    consts = dict(base_constants(order), PrintUniverse='TRUE', OffChoices='{{}}', MaxReg=0, MaxLook=0, FamNames=strs(['chain']),
+    consts = dict(base_constants(order), PrintUniverse='TRUE', OffChoices='{{}}', Stars='FALSE', MaxReg=0, MaxLook=0, FamNames=strs(['chain']),
                   RegSets=setsets([['g2']]), Ops=strs(['get']), KwChoices=setsets([['get']]), LookOps=strs(['get']))
     res = vlib.run_tlc('MC_C13', constants=consts, workers=1)
     vlib.tlc_must_pass(res, 'MC_C13 universe')
@@ -67,7 +67,7 @@ def load_universe(order):
 # ---- spec -> code ---------------------------------------------------------------------------
 # branches of the machine every tier must have exercised on the real library (vacuity guard)
 BRANCHES = ['glommer_created', 'exact_registration', 'fuzzy_registration', 'memo_hit', 'memo_miss', 'unregistered',
-            'user_handler', 'builtin_handler', 'several_nearest_types']
+            'user_handler', 'builtin_handler', 'several_nearest_types', 'wildcard_step']
 
 def replay_state(st, ops, out):
     """perform the behaviour of one dumped state on the real library"""
@@ -91,6 +91,23 @@ def replay_state(st, ops, out):
             env.register(a['r'], a['t'], a['ops'], a['exact'], idx, a.get('off', ()))
             memo = {k for k in memo if k[0] != a['r']}
             br['exact_registration' if a['exact'] else 'fuzzy_registration'] += 1
+        elif a['a'] == 'star':
+            nlook += 1
+            sig = env.observe_star(a['r'], a['t'])
+            allowed = [u.star_sig(o, a['t']) for o in a['allowed']]
+            mech = u.star_sig(a['out'], a['t'])
+            out['lookups'] += 1
+            br['wildcard_step'] += 1
+            if sig not in allowed:
+                out['bad'].append(dict(
+                    why='wildcard step did not enumerate the children with handlers of a nearest registered type: observed %s, '
+                        'law allows %s (instance of %s on %s, action %d)' % (list(sig), a['allowed'], a['t'], a['r'], idx),
+                    case=dict(kind='replay', fam=st['fam'], ops=ops, regs=sorted(regs), hist=hist[:idx],
+                              observed=list(sig), mech_agrees=(sig == mech))))
+                return
+            if sig != mech:
+                out['drift'].append(dict(what='handler', fam=st['fam'], hist=hist[:idx], observed=list(sig)))
+            memo = {k for k in memo if k[0] != a['r']}      # (its three lookups are not tracked by this counter)
         else:
             nlook += 1
             key = (a['r'], a['t'], a['op'])
@@ -167,7 +184,7 @@ def runs_for(tier):
     q = tier == 'quick'
 
     def c(**kw):
-        d = dict(Mutant='""', Dynamic='FALSE', MaxNew=0, ReReg='FALSE', AllOrders='FALSE', PrintUniverse='FALSE', OffChoices='{{}}')
+        d = dict(Mutant='""', Dynamic='FALSE', MaxNew=0, ReReg='FALSE', AllOrders='FALSE', PrintUniverse='FALSE', OffChoices='{{}}', Stars='FALSE')
         d.update(kw)
         return d
     runs = [
@@ -200,6 +217,15 @@ def runs_for(tier):
            MaxReg=2, MaxLook=1, KwChoices=setsets([['iterate'], ['get']]), OffChoices='{{}}' if q else '{{}, {"iterate"}}',
            LookOps=strs(['iterate'] if q else ['get', 'iterate'])), ['get', 'iterate']),
     ]
+    # wildcard steps ('*' / every level of '**'): keys + get, else iterate, for the nearest registered type -- also for the
+    # builtin containers themselves when they are re-registered or not registered at all (bare Glommer)
+    runs += [('wildcard steps', c(Ops=strs(['get', 'keys', 'iterate']), FamNames=strs(['star']), RegSets=setsets(each), Stars='TRUE',
+                                  MaxReg=1 if q else 2, MaxLook=1 if q else 2, LookOps='{}',
+                                  KwChoices=setsets([['keys', 'get'], ['iterate'], ['keys']])), ['get', 'keys', 'iterate']),
+             # a Glommer created after lookups on the module-level registry must not start with its memo
+             ('glommer created after lookups', c(Ops=strs(['get']), FamNames=strs(['chain']), RegSets=setsets([['default', 'g1']]),
+                                                 Dynamic='TRUE', MaxNew=1, MaxReg=1, MaxLook=2, KwChoices=setsets([['get']]),
+                                                 LookOps=strs(['get'])), ['get'])]
     # the same type registered twice with the same handlers (second call without keywords: every handler is kept) and a
     # changed exact flag (exact -> fuzzy must start covering subclasses, fuzzy -> exact keeps covering them)
     runs += [('re-registration with unchanged handlers',
@@ -229,7 +255,7 @@ def runs_for(tier):
 # ---- spec mutants: TLC must report the named law violated ------------------------------------------
 def mutant_runs():
     def c(**kw):
-        d = dict(Dynamic='FALSE', MaxNew=0, ReReg='FALSE', AllOrders='FALSE', PrintUniverse='FALSE', OffChoices='{{}}',
+        d = dict(Dynamic='FALSE', MaxNew=0, ReReg='FALSE', AllOrders='FALSE', PrintUniverse='FALSE', OffChoices='{{}}', Stars='FALSE',
                  Ops=strs(['get', 'keys']), FamNames=strs(['chain']), RegSets=setsets([['g2']]), MaxReg=2, MaxLook=2,
                  KwChoices=setsets([['get', 'keys'], ['get']]), LookOps=strs(['get', 'keys']))
         d.update(kw)
@@ -244,6 +270,12 @@ def mutant_runs():
         ('partial_reset', {'Coherent', 'HandedOut'},
          c(Mutant='"partial_reset"', Ops=strs(['get', 'iterate']), FamNames=strs(['own']), RegSets=setsets([['default']]), MaxReg=1,
            KwChoices=setsets([['iterate']]), LookOps=strs(['get', 'iterate']))),
+        ('warm_start', {'Coherent', 'HandedOut', 'Untouched'},
+         c(Mutant='"warm_start"', Ops=strs(['get']), RegSets=setsets([['default', 'g1']]), Dynamic='TRUE', MaxNew=1, MaxReg=1, MaxLook=2,
+           KwChoices=setsets([['get']]), LookOps=strs(['get']))),
+        ('star_shortcut', {'HandedOut'},
+         c(Mutant='"star_shortcut"', Ops=strs(['get', 'keys', 'iterate']), FamNames=strs(['star']), Stars='TRUE', MaxReg=1, MaxLook=1,
+           LookOps='{}', KwChoices=setsets([['keys', 'get'], ['iterate']]))),
         ('skip_unchanged', {'Nearest', 'HandedOut'},
          c(Mutant='"skip_unchanged"', Ops=strs(['get']), FamNames=strs(['ownchain']), RegSets=setsets([['g2']]), ReReg='TRUE', MaxReg=2,
            MaxLook=0, KwChoices='{{"get"}, {}}', LookOps=strs(['get']))),
@@ -580,6 +612,9 @@ def replay(path):
             env.register(a['r'], a['t'], a['ops'], a['exact'], idx, a.get('off', ()))
             print('%2d register(%s, %s%s) on %s' % (idx, a['t'], ', '.join(('%s=False' % o) if o in a.get('off', ()) else '%s=h%d' % (o, idx) for o in a['ops']),
                                                       ', exact=True' if a['exact'] else '', a['r']))
+        elif a['a'] == 'star':
+            sig = env.observe_star(a['r'], a['t'])
+            print("%2d '*' on an instance of %s via %s -> %s" % (idx, a['t'], a['r'], list(sig)))
         else:
             sig = env.observe(a['r'], a['op'], a['t'])
             print('%2d %s on an instance of %s via %s -> %s' % (idx, a['op'], a['t'], a['r'], list(sig)))
@@ -587,7 +622,8 @@ def replay(path):
     last = hist[-1]
     if case.get('kind') == 'replay':
         print('law allows handlers:', last['allowed'])
-        still = sig not in [u.sig(h, last['op'], last['t']) for h in last['allowed']]
+        still = (sig not in [u.star_sig(o, last['t']) for o in last['allowed']] if last['a'] == 'star' else
+                 sig not in [u.sig(h, last['op'], last['t']) for h in last['allowed']])
     else:
         now = u.consistent_tags(sig, last['op'], last['t'])
         print('handlers consistent with the observation now:', now, ' recorded:', last['obs'],
